@@ -2,6 +2,11 @@
     _default_matches_schema, _maybe_float, _validate_enum_symbols — as functions
     on [json].  Executable definitions only.
 
+    The model follows /repo after the repairs cee71f0 (one name set per parse_schema call,
+    shared by the members of a top-level union), ff1ad9d (_default_matches_schema looks at the
+    definition of a reference, at the type of a dict member, excludes bool from the numeric
+    types and is used for the dict form and for references too) and 10e3af8
+    (_keep_null_namespace).
     Modelled configuration: expand=False, _force=False, _ignore_default_error=False.
     [names] (the per-call redefinition set) and [named_schemas] (the caller's
     dictionary) are threaded explicitly as [pstate].  Exceptions are the
